@@ -228,11 +228,11 @@ def one_run(case, parent):
     for bucket in node.children:
         fn = node[bucket]["filename"]
         fmt_dim = "extension" if "extension" in fn.dims else "data_format"
-        for fmt in [str(x) for x in fn[fmt_dim].values]:
+        for fmt in sorted({str(x) for x in fn[fmt_dim].values}):
             sel = fn.sel({fmt_dim: fmt})
             if case["mode"] == "exposure":
-                reported.append([0, bucket, fmt, str(sel.values.item() if hasattr(sel.values, "item") else sel.values),
-                                 case["a"][0], case["b"][0]])
+                for name in np.atleast_1d(sel.values).ravel().tolist():  # a format requested twice is listed twice
+                    reported.append([0, bucket, fmt, str(name), case["a"][0], case["b"][0]])
             else:
                 # run index: position in the given value lists (sequential path numbers its runs in product
                 # order of the lists as given); the dask path numbers by position in the result's coordinates
@@ -242,7 +242,7 @@ def one_run(case, parent):
                     for bv in case["b"]:
                         v = sel.sel(a=float(av), b=float(bv)).values
                         r = a_order.index(float(av)) * nb + b_order.index(float(bv))
-                        for name in np.atleast_1d(v).tolist():
+                        for name in np.atleast_1d(v).ravel().tolist():
                             reported.append([r, bucket, fmt, str(name), av, bv])
     return {"dir": os.path.basename(run_dir), "run_dir": run_dir, "reported": reported}
 
@@ -266,6 +266,9 @@ def statement_run(case, impl):
     run's bucket (bit-identical for npy / fits); returns None if it holds"""
     import numpy as np
 
+    combos = [(b, f) for b, fmts in case["save"] for f in fmts]
+    if len(set(combos)) != len(combos):
+        return None  # the same (bucket, format) requested twice: degenerate request, outside the statement (recorded)
     if "error" in impl:
         if impl["error"] == "NotImplementedError":
             return None  # the mode refuses this format loudly: outside the statement (counted in the evidence)
@@ -383,6 +386,30 @@ def gen_save(rng, mode, allow_both_jpegs=True):
             extra = rng.choice([["jpg"], ["jpeg"], ["jpg", "jpeg"] if allow_both_jpegs else ["jpg"]])
             fmts = fmts + extra
         save.append([b, fmts])
+    if rng.random() < 0.4:
+        # the same bucket requested by several entries of the save list (each format still once per bucket):
+        # split the formats of some buckets over two or three entries, adjacent or separated by other buckets
+        split = []
+        for b, fmts in save:
+            if len(fmts) >= 2 and rng.random() < 0.8:
+                k = rng.randrange(1, len(fmts))
+                split.append([[b, fmts[:k]], [b, fmts[k:]]])
+            else:
+                split.append([[b, fmts]])
+        if all(len(x) == 1 for x in split):  # make sure at least one bucket is repeated
+            b, fmts = split[0][0]
+            other = [f for f in LOSSLESS if f not in fmts] or None
+            if other:
+                split[0].append([b, other])
+        first = [x[0] for x in split]
+        later = [e for x in split for e in x[1:]]
+        if rng.random() < 0.35:
+            save = [e for x in split for e in x]  # adjacent
+        else:
+            rng.shuffle(later)
+            save = first + later  # non-adjacent as soon as there are two buckets
+            if rng.random() < 0.5:
+                rng.shuffle(save)
     return save
 
 
@@ -407,6 +434,19 @@ def directed_runs():
     out = []
     for mode in ("exposure", "sequential", "parallel"):
         out.append({"stream": f"run-{mode}", "id": f"jpgjpeg-{mode}", "mode": mode, "save": [["image", ["jpg", "jpeg", "npy"]]],
+                    "a": [1] if mode == "exposure" else [1, 2], "b": [3], "readouts": 1, "prefix": "", "starts": 1, "pre": []})
+    repeated = {"nonadjacent": [["image", ["fits"]], ["pixel", ["npy"]], ["image", ["npy"]]],
+                "adjacent": [["image", ["fits"]], ["image", ["npy"]], ["pixel", ["npy"]]],
+                "three-entries": [["photon", ["npy"]], ["image", ["npy"]], ["photon", ["fits"]], ["signal", ["fits", "npy"]], ["image", ["fits", "jpg"]]]}
+    for nm, save in repeated.items():
+        for mode in ("exposure", "sequential", "parallel"):
+            out.append({"stream": f"run-{mode}", "id": f"repeated-{nm}-{mode}", "mode": mode, "save": save,
+                        "a": [1] if mode == "exposure" else [1, 2], "b": [3] if mode == "exposure" else [3, 0], "readouts": 1,
+                        "prefix": "", "starts": 1, "pre": []})
+    # the same (bucket, format) requested twice: a degenerate request, recorded but not judged
+    for mode in ("exposure", "sequential", "parallel"):
+        out.append({"stream": "run-degenerate", "id": f"duplicate-{mode}", "mode": mode,
+                    "save": [["image", ["npy"]], ["pixel", ["npy"]], ["image", ["npy"]]],
                     "a": [1] if mode == "exposure" else [1, 2], "b": [3], "readouts": 1, "prefix": "", "starts": 1, "pre": []})
     for fmt in ("txt", "csv", "png"):
         for mode in ("exposure", "sequential", "parallel"):
@@ -480,6 +520,9 @@ def violation_key(case, why):
         return "C19:sequential:jpg-jpeg-same-file"
     if "overwritten" in why or "disappeared" in why:
         return f"C19:{case['mode']}:overwrite"
+    buckets = [b for b, _ in case["save"]]
+    if "no reported file" in why and len(set(buckets)) != len(buckets):
+        return f"C19:{case['mode']}:repeated-bucket-unreported"
     if "share" in why or "existed before" in why:
         return f"C19:{case['mode']}:fresh-distinct"
     if "does not hold" in why:
@@ -543,11 +586,17 @@ def body(ck: common.Check):
                 ck.case(case, nontrivial=nruns * ncombo >= 2 or case["starts"] >= 2, stream=s)
                 ck.count(f"{s}:starts={case['starts']}")
                 ck.count(f"{s}:files", nruns * ncombo * case["starts"])
+                bl = [b for b, _ in case["save"]]
+                if len(set(bl)) != len(bl):
+                    adjacent = all(bl[i] == bl[i + 1] or bl[i] not in bl[i + 1:] for i in range(len(bl) - 1))
+                    ck.count(f"{s}:bucket-in-several-entries:" + ("adjacent" if adjacent else "non-adjacent"))
                 for _, fmts in case["save"]:
                     for f in fmts:
                         ck.count(f"format={f}")
                 for impl_run in impl["runs"]:
                     ck.count(f"{s}:outcome=" + (impl_run.get("error") or "ok"))
+                    if s == "run-degenerate":
+                        continue
                     mine = canon_run(case, impl_run)
                     model = canon_model(ans)
                     if mine != model:
@@ -566,7 +615,8 @@ def body(ck: common.Check):
                "starts, 2-8 simultaneous threads, 2-8 simultaneous processes, into folders pre-populated with 0-3 of the colliding names "
                "(as directories, directories with old output files, plain files), default and custom prefixes; pyxel.run_mode for "
                "exposure (1-2 readouts), sequential and dask product observation (1-3 × 1-3 parameter values) with save lists over "
-               "1-5 buckets × {fits, npy, jpg, jpeg}, 1-3 same-second starts per case and 2-8 concurrent processes; every reported file "
+               "1-5 buckets × {fits, npy, jpg, jpeg} (40 % of the lists request a bucket in several entries, adjacent or not, each "
+               "format once), 1-3 same-second starts per case and 2-8 concurrent processes; every reported file "
                "read back and compared with the bucket of the run it is attributed to; txt/csv/png recorded as refused "
                "(NotImplementedError); hdf not exercised (h5py missing). non-trivial = ≥ 2 starts or ≥ 2 files or colliding names")
     ck.assumptions = [
@@ -575,6 +625,7 @@ def body(ck: common.Check):
         "the unreported detector_<bucket>.<ext> copy written by run 0 of a sequential observation is not a reported file: it is "
         "modelled (opsSequential) and compared, but does not contradict any clause of the statement",
         "thread and process interleavings are observed, not controlled; the model proves all interleavings",
+        "a save list asking twice for the same (bucket, format) is a degenerate request: recorded (stream run-degenerate), not judged",
     ]
     ck.trusted_base.append("C19: Path.mkdir(exist_ok=False) is an atomic test-and-set on the parent folder (POSIX mkdir); "
                            "np.save/np.load, astropy FITS write/read are lossless; dask computes every element of the filename array")
